@@ -15,6 +15,7 @@ use crate::graph::{self, Ctx, Op};
 fn setup(name: &str, depth: usize, rewinds: u32, wall: f64) -> (crate::universe::Universe, graph::Cfg) {
     let (u, mut cfg) = crate::c01::setup(name, depth, rewinds, wall);
     cfg.with_client = true;
+    cfg.with_rewind_state = true;
     // The property quantifies over scans of *suggested* ranges, tip updates and rewinds: free scans
     // of ranges the wallet did not suggest (e.g. beyond the tip it knows) are outside its domain.
     cfg.free_scans = false;
@@ -41,7 +42,7 @@ pub fn run(args: &Args) -> i32 {
     let run = Run::new(args, "model_checking");
     run.set_rule(
         "(a) explicit-state search of every insertion sequence on the real SpanningTree (see section spanning); (b) explicit-state BFS over the real \
-         SQLite wallet with operations ClientStep(first suggested range, from start|end, chunk 1|half|all), Tip(h), Rewind(h)+switch \
+         SQLite wallet with operations ClientStep(first suggested range, from start|end, chunk 1|half|all), Tip(h), RewindToChainState(h), Rewind(h)+switch \
          branch; states matched on a canonical logical dump + reference model; a state is non-trivial when reached by at least one operation and distinct by that key",
     );
     run.assume("the priority of a height is Scanned exactly when its block is in the wallet on the current chain; FoundNote / OpenAdjacent extensions are not constrained beyond the structural invariant");
